@@ -10,7 +10,7 @@ from vf.spec import Ann, Ctx, Err, MapT, Ok, Prim, Program, Union_, Unspecified,
 PROP = "C02"
 SHARDS = {"quick": 8, "thorough": 16}
 TIME_CAP = {"quick": 70, "thorough": 900}
-REQUIRED = ["rejections_compared", "multi_violation_data", "additivity_pairs", "order_checks", "determinism_checks", "multiplicity_checks", "default_message_runs", "programs"]
+REQUIRED = ["long_array_rejections", "rejections_compared", "multi_violation_data", "additivity_pairs", "order_checks", "determinism_checks", "multiplicity_checks", "default_message_runs", "programs"]
 RULE = ("C01 program space; data = model-valid data with k=1..5 compounded boundary mutations at random paths (so several simultaneous violations), plus atoms; "
         "for union-free programs all single wrong-type replacements at every path and all pairs at independent paths (additivity). "
         "A case = (type signature, options, datum); non-trivial when the rejection carries >= 2 entries or a nested location; distinct by hash.")
@@ -64,6 +64,27 @@ def compound(v, rng, atoms, k):
     return d
 
 
+def long_list_variants(v, rng, atoms):
+    """arrays of >= 12 items with ill-typed items at indices 2 and 10 (index order is numeric, not lexicographic)"""
+    out = []
+    for p in list(gen_data.paths(v)):
+        cur = gen_data.get_at(v, p)
+        if type(cur) is list and cur:
+            long = [copy.deepcopy(cur[i % len(cur)]) for i in range(12)]
+            for i in (2, 10, 11):
+                bad = rng.choice(atoms)
+                if type(bad) is type(long[i]):
+                    bad = {"$bad": 1} if not isinstance(long[i], dict) else "bad"
+                long[i] = bad
+            try:
+                out.append(gen_data.set_at(v, p, long))
+            except Exception:
+                pass
+            if len(out) >= 2:
+                break
+    return out
+
+
 def union_free(t):
     return not any(isinstance(n, Union_) for n in t.walk())
 
@@ -95,6 +116,8 @@ def check_program(env, prog, label, ndata):
             for _ in range(max(1, ndata // 16)):
                 data.append(compound(v, rng, atoms, k))
     data += atoms[:: max(1, len(atoms) // 8)]
+    for v in valid[:2]:
+        data += long_list_variants(v, rng, atoms)
     ufree = union_free(t)
     plain_keys = all(isinstance(n.k, Prim) for n in t.walk() if isinstance(n, MapT))  # key rule and value rule may share loc and message
     optsig = (cx.additional_properties, cx.fall_back_on_default, cx.aliaser)
@@ -106,6 +129,8 @@ def check_program(env, prog, label, ndata):
         # (c) order + determinism -- model-free
         entries = [(tuple(e["loc"]), e["err"]) for e in real.errors]
         env.count("order_checks")
+        if any(isinstance(k, int) and k >= 10 for loc, _ in entries for k in loc):
+            env.count("long_array_rejections")
         if canonical_order(entries) != entries:
             env.violation({"kind": "order"}, {**base_wit, "datum": d, "errors": real.errors, "canonical": canonical_order(entries)})
         d2 = reorder(copy.deepcopy(d), rng)
